@@ -1,0 +1,36 @@
+//go:build verif
+
+package store
+
+import (
+	"github.com/ipld/go-storethehash/store/filecache"
+	"github.com/ipld/go-storethehash/store/freelist"
+)
+
+// Accessors for the verification harness in /verif. Compiled only with the
+// "verif" build tag; they add no behaviour.
+
+// VerifFlushRate returns the measured flush rate.
+func (s *Store) VerifFlushRate() float64 {
+	s.rateLk.Lock()
+	defer s.rateLk.Unlock()
+	return s.flushRate
+}
+
+// VerifSetFlushRate presets the measured flush rate so that the
+// back-pressure path of flushTick can be entered deterministically.
+func (s *Store) VerifSetFlushRate(rate float64) {
+	s.rateLk.Lock()
+	s.flushRate = rate
+	s.rateLk.Unlock()
+}
+
+// VerifFreelist returns the store's freelist.
+func (s *Store) VerifFreelist() *freelist.FreeList {
+	return s.freelist
+}
+
+// VerifFileCache returns the store's file cache.
+func (s *Store) VerifFileCache() *filecache.FileCache {
+	return s.fileCache
+}
